@@ -5,15 +5,42 @@ from . import common as C
 CONTENTS = [b"", b"x", b"hello hello hello hello hello hello", bytes(range(256)) * 3, bytes(700), b"short"]
 
 
-def find_colliding(ib_crypt, want, size=16):
-    """names whose home slot in a `size`-slot table coincide (to force probe chains)"""
+def collision_groups(ib_crypt, size=16):
+    """candidate names grouped by their home slot in a `size`-slot table, plus the home slots of the fixed names"""
     cands = ["n%03d.dat" % i for i in range(400)]
-    outs = C.run_lines([ib_crypt], ["hash 0 %s" % C.hexs(c.encode()) for c in cands], shards=1)
+    fixed = ["Dir\\Other.txt", "x/y.bin", "untouched.bin", "keep\\untouched.bin", "(listfile)", "(attributes)"]
+    outs = C.run_lines([ib_crypt], ["hash 0 %s" % C.hexs(c.encode()) for c in cands + fixed], shards=1)
     by = {}
     for c, o in zip(cands, outs):
         by.setdefault(int(o, 16) % size, []).append(c)
+    homes = {int(o, 16) % size for o in outs[len(cands):]}
+    return by, homes
+
+
+def find_colliding(ib_crypt, want, size=16):
+    """names whose home slot in a `size`-slot table coincide (to force probe chains)"""
+    by, _ = collision_groups(ib_crypt, size)
     best = max(by.values(), key=len)
     return best[:want]
+
+
+def quiet_groups(ib_crypt, busy, size=16, count=2):
+    """further collision groups (3 names each) whose home slot and both neighbours are free in the initial archive:
+    probe chains that start after a never-used slot (the situation in which tombstone handling matters)"""
+    by, _ = collision_groups(ib_crypt, size)
+    busy = set(busy)
+    out = []
+    for h in sorted(by, key=lambda h: -len(by[h])):
+        if len(by[h]) < 3:
+            continue
+        around = {(h + d) % size for d in (-1, 0, 1)}
+        if around & busy:
+            continue
+        out.append(by[h][:3])
+        busy |= around | {(h + 2) % size}
+        if len(out) == count:
+            break
+    return out
 
 
 def classify(ver, ops, outcome):
@@ -40,7 +67,7 @@ def extra_names(h, sp_reads):
 def run(tier, seed, replay=None):
     res = C.Result("C06", tier, seed)
     res.rule = ("histories of add / replace / remove / rename / compact / flush on real archives (V1..V4, with listfile, 16-slot hash table, names that collide "
-                "on their home slot): every history of length <=2 over a 3-name alphabet (quick; <=3 thorough) plus seeded histories of up to 40 operations incl. more "
+                "on their home slot, in one group next to occupied slots and in further groups with never-used slots on both sides): every history of length <=2 over a 3-name alphabet (quick; <=3 thorough) plus seeded histories of up to 40 operations incl. more "
                 "additions than free slots; each history runs in its own process under a 10 s watchdog, then the archive is closed, reopened and every name read; "
                 "per-operation outcomes and the final contents are compared with the extracted specification map; non-trivial = history has >=2 operations; distinct = distinct history")
     res.assumptions = ["crash-free execution (crashes during modification are not part of this property; C12 covers build/compact only)",
@@ -56,8 +83,16 @@ def run(tier, seed, replay=None):
     os.makedirs(base)
     ib = C.bin_path("impl_mpq")
     coll = find_colliding(C.bin_path("impl_crypt"), 5)
+    by, _ = collision_groups(C.bin_path("impl_crypt"))
+    home_a = next(h for h in by if coll[0] in by[h])
+    present = ["Dir\\Other.txt", "keep\\untouched.bin", "(listfile)"]
+    ph = C.run_lines([C.bin_path("impl_crypt")], ["hash 0 %s" % C.hexs(c.encode()) for c in present], shards=1)
+    groups = quiet_groups(C.bin_path("impl_crypt"), {int(o, 16) % 16 for o in ph} | {home_a, (home_a + 1) % 16})
     names = coll + ["Dir\\Other.txt", "x/y.bin", "untouched.bin"]     # the last is a substring of an initial name
+    for g in groups:
+        names += g
     initial = [(names[0], CONTENTS[2], "2", 0), (names[5], CONTENTS[3], "0", 0), ("keep\\untouched.bin", bytes(range(200)), "2", 0)]
+    initial += [(g[0], CONTENTS[5], "0", 0) for g in groups]
     # source archives per version
     srcs = {}
     bl = []
@@ -81,6 +116,14 @@ def run(tier, seed, replay=None):
         hist += [list(t) for t in itertools.product(alpha, repeat=L)]
     if not big:
         hist = hist[:1] + [h for k, h in enumerate(hist[1:]) if len(h) == 1 or k % 3 == 0]
+    # the same short histories on collision groups whose probe chains have never-used slots on both sides
+    for gi, g in enumerate(groups):
+        ag = []
+        for n in g:
+            ag += [op_add(n, 1), op_add(n, 2, "2"), ("r", C.hexs(n.encode()))]
+        ag += [("m", C.hexs(g[0].encode()), C.hexs(g[1].encode())), ("f",)]
+        for L in ((1, 2, 3) if (big and gi == 0) else (1, 2)):
+            hist += [list(t) for t in itertools.product(ag, repeat=L)]
     for _ in range(400 if big else 60):
         h = []
         for _ in range(r.randrange(3, 14)):
@@ -158,6 +201,7 @@ def run(tier, seed, replay=None):
     res.extra["outcomes"] = stats
     res.extra["histories"] = len(hist)
     res.extra["colliding_names"] = coll
+    res.extra["quiet_collision_groups"] = groups
     res.sample({"history": ",".join(".".join(x)[:40] for x in meta[30][2]), "version": meta[30][1], "impl": outs[30][:160], "spec": spec[30][:160]})
     res.traces = len(lines)
     shutil.rmtree(base, ignore_errors=True)
